@@ -21,10 +21,14 @@ def gen_free_rows(rng, n, t0, t1, scale=1):
     for i in range(n):
         t += rng.choice([0, 0, 1, 2, 5]) * scale
         ln = rng.choice([1, 1, 2, 3]) * scale
+        long_row = rng.random() < 0.12
+        if long_row:
+            # a long row with later, shorter rows nested in it (end times not sorted)
+            ln = rng.choice([6, 9]) * scale
         if t + ln > t1:
             break
         rows.append((t, t + ln, 101 + i))
-        if rng.random() < 0.6:
+        if rng.random() < (0.2 if long_row else 0.6):
             t += ln
     return rows
 
